@@ -128,8 +128,10 @@ class Model:
 
     def _expand_S(self) -> np.ndarray:
         self.N = self.N // self.np
-        S = self._create_S()
-        self.N = self.N * self.np
+        try:
+            S = self._create_S()
+        finally:
+            self.N = self.N * self.np
         # self.S= diag_blocks(self.np*[S])
         return diag_blocks(self.np * [S])
 
